@@ -103,9 +103,19 @@ fn gen_delivery(t: &mut Tape, c: &Corpus) -> Delivery {
     let mut bytes = seeds[seed].1.clone();
     let mut kinds = Vec::new();
     for k in chosen {
-        let other: &[u8] = if k == "splice" { &seeds[t.index(seeds.len())].1 } else { &[] };
-        if mutate::apply(k, traits, &mut bytes, other, t) {
-            kinds.push(k);
+        // a kind that does not apply to the current bytes (no such structure left) is replaced by
+        // another structural kind, twice at most
+        let mut k = k;
+        for attempt in 0..3 {
+            let other: &[u8] = if k == "splice" { &seeds[t.index(seeds.len())].1 } else { &[] };
+            if mutate::apply(k, traits, &mut bytes, other, t) {
+                kinds.push(k);
+                break;
+            }
+            if attempt == 2 || c.struct_kinds[entry].is_empty() {
+                break;
+            }
+            k = c.struct_kinds[entry][t.index(c.struct_kinds[entry].len())];
         }
     }
     if bytes.len() > mutate::MAX_INPUT {
@@ -617,4 +627,36 @@ fn main() {
         _ => {}
     }
     std::process::exit(simcore::driver_main(&CrashEngine));
+}
+
+#[cfg(test)]
+mod reach_tests {
+    use super::*;
+    /// Reach: deliveries to the versions entry whose list holds a string with nothing (or a
+    /// multi-byte character) before its first dot.
+    #[test]
+    fn versions_entry_sees_dot_first_strings() {
+        let c = corpus();
+        let want = ENTRIES.iter().position(|e| e.name == "http.r.get_supported_versions").unwrap();
+        let (mut n, mut hits, mut edits) = (0, 0, 0);
+        let mut i = 0u64;
+        while n < 3000 {
+            i += 1;
+            let mut t = Tape::generate(simcore::tape::run_seed(11, i));
+            let d = gen_delivery(&mut t, c);
+            if d.entry != want {
+                continue;
+            }
+            n += 1;
+            if d.kinds.contains(&"json_string_edit") {
+                edits += 1;
+            }
+            let text = String::from_utf8_lossy(&d.bytes).to_string();
+            if text.contains("\".") {
+                hits += 1;
+            }
+        }
+        assert!(edits > 100, "edits {edits}");
+        assert!(hits > 5, "hits {hits} edits {edits}");
+    }
 }
